@@ -4,8 +4,9 @@
 (* space: every table row with a few operand fields, a few rows with every  *)
 (* interesting operand code (boundaries of each class of the operand-code   *)
 (* map, reserved codes, literal, SDWA, DPP), literal / SDWA dwords, both    *)
-(* FLAT addressing modes.  One initial state per word; the invariants are   *)
-(* the property:                                                           *)
+(* FLAT addressing modes, words of no format.  One initial state per word   *)
+(* (format, field values, second dword, mode); the invariants - evaluated   *)
+(* once the word has been handed to the decoder - are the property:         *)
 (*   Total       Decode answers "inst" or "und" for every word and prefix   *)
 (*   RoundTrip   Decode(Encode(d)) = d and |Encode(d)| = size               *)
 (*   Sized       a result never claims more bytes than the buffer holds     *)
@@ -16,10 +17,12 @@ EXTENDS Decode, TLC
 
 CONSTANT Wide        \* TRUE: larger operand samples (thorough tier)
 
-VARIABLES w,         \* the byte string handed to the decoder
+VARIABLES f,         \* format the word is assembled for ("raw": x is the whole first dword)
+          fv,        \* field values
+          x,         \* second dword of a 4-byte format (literal / SDWA dword / junk)
           c,         \* CDNA3 mode
           st         \* "new" | "done"
-vars == <<w, c, st>>
+vars == <<f, fv, x, c, st>>
 
 \* ------------------------------------------------------------ operand samples
 S8   == {0, 1, 101, 102, 106, 107, 111, 112, 122, 124, 126, 127, 128, 192, 193, 208, 240, 248, 251, 253, 255}
@@ -31,78 +34,100 @@ D7   == {0, 101, 106, 124, 127, 123}
 V8   == {0, 7, 255}
 X1   == {<<0, 0>>, <<4660, 22136>>, <<65535, 65535>>}       \* literal dwords
 X1t  == {<<4660, 22136>>}
+Z    == {<<0, 0>>}
+
+\* all one-field-at-a-time variations of a base record, plus the base
+Vary(base, alts) == {base} \cup UNION {{[base EXCEPT ![k] = v] : v \in alts[k]} : k \in DOMAIN alts}
+
 \* SDWA dwords: selectors (incl. reserved 7 / 3), unsupported modifier bits, scalar-source bits
-SdwaX == {Bytes2W(AsmW("sdwa", 1, fv)) :
-            fv \in [src0: {0, 9, 101, 106, 123, 200}, dst_sel: {0, 6, 7}, dst_u: {0, 2, 3}, clamp: {0, 1},
-                    src0_sel: {0, 5, 7}, src0_sext: {0}, src0_neg: {0, 1}, src0_abs: {0}, src1_sel: {6, 7},
-                    src1_sext: {0}, src1_neg: {0}, src1_abs: {0, 1}, s0: {0, 1}, s1: {0, 1}]}
+SdwaBase == [src0 |-> 9, dst_sel |-> 6, dst_u |-> 0, clamp |-> 0, src0_sel |-> 5, src0_sext |-> 0, src0_neg |-> 0,
+             src0_abs |-> 0, src1_sel |-> 6, src1_sext |-> 0, src1_neg |-> 0, src1_abs |-> 0, s0 |-> 0, s1 |-> 0]
+SdwaFV == Vary(SdwaBase, [src0 |-> {0, 255}, dst_sel |-> {0, 7}, dst_u |-> {1, 2, 3}, clamp |-> {1},
+                          src0_sel |-> {0, 7}, src0_sext |-> {1}, src0_neg |-> {1}, src0_abs |-> {1},
+                          src1_sel |-> {3, 7}, src1_sext |-> {1}, src1_neg |-> {1}, src1_abs |-> {1}, s1 |-> {1}])
+          \cup Vary([SdwaBase EXCEPT !.s0 = 1], [src0 |-> {0, 101, 106, 123, 127, 128, 200}, s1 |-> {1}, dst_sel |-> {7}])
+SdwaX == {AsmW("sdwa", 1, v) : v \in SdwaFV}
 
 Pick(S, T) == IF Wide THEN S ELSE T
-Ops(f) == OpsOf(f)
-Few(f, S) == S \cap OpsOf(f)
+Ops(fm) == OpsOf(fm)
+Few(fm, S) == S \cap OpsOf(fm)
 
-Words ==
-  \* --- scalar formats
-     {AsmFields("sop2", fv, x) : fv \in [ssrc0: S8t, ssrc1: S8t, sdst: {1}, op: Ops("sop2")], x \in X1t}
-  \cup {AsmFields("sop2", fv, x) : fv \in [ssrc0: S8 \cup S8r, ssrc1: Pick(S8 \cup S8r, {2, 255, 193}), sdst: D7,
-                                           op: Few("sop2", {0, 13})], x \in X1t}
-  \cup {AsmFields("sopk", fv, <<0, 0>>) : fv \in [simm16: {0, 65535, 4660}, sdst: D7, op: Ops("sopk") \cup {21, 31}]}
-  \cup {AsmFields("sop1", fv, x) : fv \in [ssrc0: S8t, sdst: {1, 123}, op: Ops("sop1") \cup {50, 255}], x \in X1t}
-  \cup {AsmFields("sop1", fv, x) : fv \in [ssrc0: S8 \cup S8r, sdst: D7, op: Few("sop1", {0, 1, 7})], x \in X1}
-  \cup {AsmFields("sopc", fv, x) : fv \in [ssrc0: S8t, ssrc1: S8t, op: Ops("sopc") \cup {20, 127}], x \in X1t}
-  \cup {AsmFields("sopc", fv, x) : fv \in [ssrc0: S8 \cup S8r, ssrc1: Pick(S8 \cup S8r, {2, 255, 250}),
-                                           op: Few("sopc", {0})], x \in X1t}
-  \cup {AsmFields("sopp", fv, <<0, 0>>) : fv \in [simm16: {0, 65535, 3952, 127}, op: Ops("sopp") \cup {30, 127}]}
-  \cup {AsmFields("smem", fv, <<0, 0>>) : fv \in [sbase: {0, 50, 51, 53, 63}, sdata: {0, 101, 106, 123, 127}, glc: {0, 1},
-                                                  imm: {0, 1}, offset: {0, 101, 102, 124, 125, 127, 128, 1048575},
-                                                  op: Pick(Ops("smem"), Few("smem", {0, 1, 2, 3, 4, 16, 32})) \cup {63}]}
-  \* --- vector formats
-  \cup {AsmFields("vop2", fv, x) : fv \in [src0: S9t, vsrc1: {0, 255}, vdst: {3}, op: Ops("vop2") \cup {60, 63}], x \in X1t}
-  \cup {AsmFields("vop2", fv, x) : fv \in [src0: S9 \cup S8r, vsrc1: V8, vdst: V8, op: Few("vop2", {1, 23, 24, 25})], x \in X1t}
-  \cup {AsmFields("vop2", fv, x) : fv \in [src0: {249}, vsrc1: {2, 101, 106, 200}, vdst: {3},
-                                           op: Few("vop2", {1, 23, 37, 52})], x \in SdwaX}
-  \cup {AsmFields("vop1", fv, x) : fv \in [src0: S9t \cup {249}, vdst: {3, 200}, op: Ops("vop1") \cup {77, 255}], x \in X1t}
-  \cup {AsmFields("vop1", fv, x) : fv \in [src0: S9 \cup S8r, vdst: V8 \cup {106, 123, 128}, op: Few("vop1", {1, 2, 4, 15})], x \in X1t}
-  \cup {AsmFields("vopc", fv, x) : fv \in [src0: S9t \cup {249}, vsrc1: {0, 255}, op: Ops("vopc") \cup {0, 15}], x \in X1t}
-  \cup {AsmFields("vop3a", fv, <<0, 0>>) : fv \in [vdst: {0, 106, 255}, abs: {0, 5}, opsel: {0, 15}, clamp: {0, 1},
-                                                   src0: {5, 300}, src1: {128, 511}, src2: {0, 255}, omod: {0, 3},
-                                                   neg: {0, 6}, op: Ops("vop3a") \cup {0, 499, 1023}]}
-  \cup {AsmFields("vop3a", fv, <<0, 0>>) : fv \in [vdst: {0, 123, 255}, abs: {0}, opsel: {0, 9}, clamp: {0}, src0: S9 \cup S8r,
-                                                   src1: Pick(S9 \cup S8r, {1, 255, 209, 256}), src2: {240, 123, 255, 257},
-                                                   omod: {1}, neg: {1}, op: Few("vop3a", {16, 200, 256, 449, 944, 945})]}
-  \cup {AsmFields("vop3b", fv, <<0, 0>>) : fv \in [vdst: {0, 255}, sdst: {0, 106, 123, 127}, clamp: {0, 1},
-                                                   src0: {5, 300, 255, 250}, src1: {128, 511}, src2: {0, 106, 209}, omod: {0, 2},
-                                                   neg: {0, 7}, op: Ops("vop3b")]}
-  \cup {AsmFields("ds", fv, <<0, 0>>) : fv \in [offset0: {0, 16, 255}, offset1: {0, 255}, gds: {0, 1}, addr: {0, 255},
-                                                data0: {1}, data1: {2}, vdst: {0, 255}, op: Ops("ds") \cup {21}]}
-  \cup {AsmFields("flat", fv, <<0, 0>>) : fv \in [offset: {0, 4, 4095, 4096, 8191}, glc: {0, 1}, slc: {0, 1}, tfe: {0, 1},
-                                                  addr: {0, 255}, data: {1}, saddr: {0, 2, 127}, vdst: {0, 255},
-                                                  op: Pick(Ops("flat"), Few("flat", {16, 20, 21, 22, 23, 28, 31, 80})) \cup {0, 127}]}
-  \* --- words of no format / of formats without a decoder
-  \cup {Bytes(<<h, 0>>) \o Bytes(<<0, 0>>) : h \in {52224, 54272, 58368, 60416, 62464, 65535, 51200, 57344, 59392, 61440, 50176}}
+V3Base == [vdst |-> 3, abs |-> 0, opsel |-> 0, clamp |-> 0, src0 |-> 5, src1 |-> 300, src2 |-> 128, omod |-> 0, neg |-> 0, op |-> 0]
+V3Alts == [vdst |-> {0, 106, 123, 255}, abs |-> {5, 7}, opsel |-> {9, 15}, clamp |-> {1}, src0 |-> {255, 511, 250},
+           src1 |-> {0, 209}, src2 |-> {255, 257, 123}, omod |-> {3}, neg |-> {6, 7}]
 
-FlatWord(b) == Len(b) >= 4 /\ b[4] \div 4 = 55          \* 0xDC..0xDF prefix
+\* groups of words: format, set of field-value records, set of second dwords
+G(fm, fvs, xs) == [f |-> fm, fvs |-> fvs, xs |-> xs]
+Groups == {
+  G("sop2", [ssrc0: S8t, ssrc1: S8t, sdst: {1}, op: Ops("sop2")], X1t),
+  G("sop2", [ssrc0: S8 \cup S8r, ssrc1: Pick(S8 \cup S8r, {2, 255, 193}), sdst: D7, op: Few("sop2", {0, 13})], X1t),
+  G("sopk", [simm16: {0, 65535, 4660}, sdst: D7, op: Ops("sopk") \cup {21, 31}], Z),
+  G("sop1", [ssrc0: S8t, sdst: {1, 123}, op: Ops("sop1") \cup {50, 255}], X1t),
+  G("sop1", [ssrc0: S8 \cup S8r, sdst: D7, op: Few("sop1", {0, 1, 7})], X1),
+  G("sopc", [ssrc0: S8t, ssrc1: S8t, op: Ops("sopc") \cup {20, 127}], X1t),
+  G("sopc", [ssrc0: S8 \cup S8r, ssrc1: Pick(S8 \cup S8r, {2, 255, 250}), op: Few("sopc", {0})], X1t),
+  G("sopp", [simm16: {0, 65535, 3952, 127}, op: Ops("sopp") \cup {30, 127}], Z),
+  G("smem", [sbase: {0, 51, 63}, sdata: {0, 106, 123}, glc: {0, 1}, imm: {0, 1},
+             offset: {0, 101, 102, 125, 127, 128, 1048575},
+             op: Pick(Ops("smem"), Few("smem", {0, 1, 2, 3, 4, 16, 32})) \cup {63}], Z),
+  G("vop2", [src0: S9t, vsrc1: {0, 255}, vdst: {3}, op: Ops("vop2") \cup {60, 63}], X1t),
+  G("vop2", [src0: S9 \cup S8r, vsrc1: V8, vdst: V8, op: Few("vop2", {1, 23, 24, 25})], X1t),
+  G("vop2", [src0: {249}, vsrc1: {2, 101, 106, 200}, vdst: {3}, op: Few("vop2", {1, 23, 37, 52})], SdwaX),
+  G("vop1", [src0: S9t \cup {249}, vdst: {3, 200}, op: Ops("vop1") \cup {77, 255}], X1t),
+  G("vop1", [src0: S9 \cup S8r, vdst: V8 \cup {106, 123, 128}, op: Few("vop1", {1, 2, 4, 15})], X1t),
+  G("vopc", [src0: S9t \cup {249}, vsrc1: {0, 255}, op: Ops("vopc") \cup {0, 15}], X1t),
+  G("vop3a", UNION {Vary([V3Base EXCEPT !.op = o], V3Alts) : o \in Ops("vop3a") \cup {0, 499, 1023}}, Z),
+  G("vop3a", [vdst: {0, 255}, abs: {0}, opsel: {0, 9}, clamp: {0}, src0: S9 \cup S8r,
+              src1: Pick(S9 \cup S8r, {1, 255, 256}), src2: {240, 123, 255, 257}, omod: {1}, neg: {1},
+              op: Few("vop3a", {16, 200, 256, 449, 944, 945})], Z),
+  G("vop3b", [vdst: {0, 255}, sdst: {0, 106, 123, 127}, clamp: {0, 1}, src0: {5, 300, 255, 250}, src1: {128},
+              src2: {0, 106, 209}, omod: {2}, neg: {0, 7}, op: Ops("vop3b")], Z),
+  G("ds", [offset0: {0, 16, 255}, offset1: {0, 255}, gds: {0, 1}, addr: {255}, data0: {1}, data1: {2},
+           vdst: {0, 255}, op: Ops("ds") \cup {21}], Z),
+  G("flat", [offset: {0, 4, 4095, 4096, 8191}, glc: {0, 1}, slc: {0, 1}, tfe: {0, 1}, addr: {0, 255}, data: {1},
+             saddr: {0, 2, 127}, vdst: {0, 255},
+             op: Pick(Ops("flat"), Few("flat", {16, 20, 21, 22, 23, 28, 31, 80})) \cup {0, 127}], Z),
+  \* words of no format / of formats without a decoder: x is the first dword
+  G("raw", {[op |-> 0]}, {<<h, 0>> : h \in {52224, 54272, 58368, 60416, 62464, 65535, 51200, 57344, 59392, 61440, 50176}}) }
 
-Init == /\ w \in Words /\ st = "new"
-        /\ c \in (IF FlatWord(w) THEN BOOLEAN ELSE {FALSE})
-Next == st = "new" /\ st' = "done" /\ UNCHANGED <<w, c>>
+Init == /\ st = "new"
+        /\ \E g \in Groups : f = g.f /\ fv \in g.fvs /\ x \in g.xs
+        /\ c \in (IF f = "flat" THEN BOOLEAN ELSE {FALSE})
+Next == st = "new" /\ st' = "done" /\ UNCHANGED <<f, fv, x, c>>
 Spec == Init /\ [][Next]_vars
+
+\* the byte string handed to the decoder
+w == IF f = "raw" THEN Bytes(x) \o Bytes(<<0, 0>>) ELSE AsmFields(f, fv, x)
 
 \* ----------------------------------------------------------------- invariants
 E == Decode(w, c)
 Pre(n) == SubSeq(w, 1, n)
-Junk == {<<255>>, <<0, 0, 0, 0>>, <<249, 0, 255, 126, 255, 255, 255, 255>>}
+Junk == {<<255>>, <<249, 0, 255, 126, 255, 255, 255, 255>>}
 WhyNames == {"short", "format", "opcode", "truncated", "operand", "sreg_range", "sdwa_mod", "sdwa_sel", "sdwa_k", "vop3_lit"}
+Done == st = "done"
 
-Total == /\ E.k \in {"inst", "und"}
-         /\ E.k = "und" => E.why \in WhyNames
-         /\ \A n \in 0..Len(w) : Decode(Pre(n), c).k \in {"inst", "und"}
-RoundTrip == E.k = "inst" =>
+Total == Done => /\ E.k \in {"inst", "und"}
+                 /\ E.k = "und" => E.why \in WhyNames
+                 /\ \A n \in 0..Len(w) : Decode(Pre(n), c).k \in {"inst", "und"}
+RoundTrip == Done /\ E.k = "inst" =>
                /\ Len(Encode(E)) = E.sz
                /\ Decode(Encode(E), c) = E
-Sized == \A n \in 0..Len(w) : LET T == Decode(Pre(n), c) IN T.k = "inst" => T.sz <= n
-Suffix == E.k = "inst" => \A j \in Junk : Decode(Pre(E.sz) \o j, c) = E
-Prefix == \A n \in 0..Len(w) : LET T == Decode(Pre(n), c) IN T.k = "inst" => T = E
-\* the sizes the ISA knows
-Sizes == E.k = "inst" => E.sz \in {4, 8}
+Sized == Done => \A n \in 0..Len(w) : LET T == Decode(Pre(n), c) IN T.k = "inst" => T.sz <= n
+Suffix == Done /\ E.k = "inst" => \A j \in Junk : Decode(Pre(E.sz) \o j, c) = E
+Prefix == Done => \A n \in 0..Len(w) : LET T == Decode(Pre(n), c) IN T.k = "inst" => T = E
+Sizes == Done /\ E.k = "inst" => E.sz \in {4, 8}       \* the sizes the ISA knows
+
+\* the same properties in one pass (shares the evaluations; used by the quick tier)
+Cuts == {0, 3, 4, 7, 8} \cap (0..Len(w))
+AllProps ==
+  Done =>
+    LET e == Decode(w, c) IN
+    /\ e.k \in {"inst", "und"}
+    /\ e.k = "und" => e.why \in WhyNames
+    /\ \A n \in Cuts : LET T == Decode(Pre(n), c) IN
+                          /\ T.k \in {"inst", "und"}
+                          /\ T.k = "inst" => T.sz <= n /\ T = e
+    /\ e.k = "inst" => /\ e.sz \in {4, 8}
+                       /\ Len(Encode(e)) = e.sz /\ Decode(Encode(e), c) = e
+                       /\ \A j \in Junk : Decode(Pre(e.sz) \o j, c) = e
 =============================================================================
